@@ -1,7 +1,7 @@
 """Obligations shared by C01 / C02 / C03 / C19: the graph-rewriting carriers under the sidecar contracts of contracts/graph.py."""
 import z3
 from vlib import core, pyvc
-from contracts import graph
+from contracts import graph, performer
 from replay import graph_native
 
 TU, DI, QI, QT = 'transformations/transformation_utils.py', 'transformations/dequant_insert.py', 'transformations/quant_insert.py', 'transformations/quantize_tensor.py'
@@ -35,6 +35,51 @@ def insert_obligations(rep, prop, exclude=()):
                            fallback=lambda label, kind=kind: _search(kind, label))
     return obs
 
+PERF = 'transformation_performer.py'
+_as_cases = []
+def _search_apply_single(label):
+    if not _as_cases: _as_cases.extend(graph_native.enumerate_apply_single(3))
+    for case in _as_cases:
+        r = graph_native.replay_apply_single(case)
+        if r.get('confirmed'): return r
+    return None
+def performer_obligations(rep, prop, exclude=()):
+    """op-id bookkeeping of TransformationPerformer: _update_op_id_map and _apply_single_transformation (call-site obligations = the
+    transformation's precondition; PerfInv re-established)"""
+    obs = pyvc.verify(rep, prop, core.Fn(PERF, 'TransformationPerformer._update_op_id_map'), performer.UpdateOpIdMap(), select=None)
+    obs += pyvc.verify(rep, prop, core.Fn(PERF, 'TransformationPerformer._apply_single_transformation'), performer.ApplySingle(), select=None, exclude=exclude,
+                       replay=lambda mv, label: graph_native.replay_apply_single(mv), fallback=_search_apply_single)
+    return obs
+def performer_canaries(rep):
+    src = core.read_source(PERF)
+    for name, qual, spec, a, b in [
+        ('_update_op_id_map: original_op_id: -> original_op_id + 1:', 'TransformationPerformer._update_op_id_map', performer.UpdateOpIdMap(), 'np_op_id_map[original_op_id:] += num_ops_added', 'np_op_id_map[original_op_id + 1:] += num_ops_added'),
+        ('_apply_single_transformation: producer None test -> truthiness (producer 0 = no producer)', 'TransformationPerformer._apply_single_transformation', performer.ApplySingle(), 'if instruction.producer is None or instruction.producer < 0:', 'if not instruction.producer or instruction.producer < 0:'),
+        ('_apply_single_transformation: marker -1 looked up in the op-id map', 'TransformationPerformer._apply_single_transformation', performer.ApplySingle(), 'consumers.append(-1)\n        continue', 'pass'),
+    ]:
+        if a not in src: rep.canary(name, False, 'mutation site not found (stale canary)'); continue
+        try:
+            E = pyvc.run_function(core.Fn(PERF, qual, src_override=src.replace(a, b)), spec)
+            res = pyvc.decide_parallel(E, spec, timeout=20000); bad = [ob.label for ob, st, dt, det, mv in res if st != 'proved']
+            rep.canary(name, bool(bad), str(bad[:4]))
+        except pyvc.Unsupported as e: rep.canary(name, True, f'mutant leaves the engine subset: {e}')
+def e2e_standin(rep, prop, sampled3=0):
+    """bounded stand-in through the public API (labelled bounded): generator -> performer composition, serializer, interpreter"""
+    from bounded import e2e
+    cases = e2e.enumerate_cases(2, sampled3, rep.seed); fails = 0; first = None; tags = {}
+    for c in cases:
+        f = [x for x in e2e.run_case(c) if x.startswith(prop) or x.startswith('CHECKER')]
+        if f: fails += 1; first = first or (c, f)
+        for x in f: tags[x[:40]] = tags.get(x[:40], 0) + 1
+    rep.add_bounded('Quantizer.quantize end to end (generator -> performer -> serializer -> LiteRT allocate+invoke), native ' + prop + ' clauses',
+                    'all 1-op graphs over {TANH,LOGISTIC,ABS,ADD,MUL,FC} x modes; all 2-op graphs over {TANH,ADD,ABS,FC} x wirings x output sets x modes' + (f'; {sampled3} seeded random 3-op graphs' if sampled3 else ''),
+                    len(cases), fails, note=str(tags) if tags else '')
+    if first:
+        ob = core.Ob(f'{prop}/bounded.e2e/{first[1][0][:40]}', None, 'bounded-native', core.REFUTED, 0.0, detail=str(first[1]), clause='native ' + prop + ' clause on the bytes returned by quantize()')
+        ob.replay = dict(confirmed=True, inputs=dict(spec=first[0][0], modes=first[0][1]), violated=first[1])
+        rep.add(ob)
+    return fails
+
 def small_carriers(rep, prop):
     sel = SEL[prop]; obs = []
     obs += pyvc.verify(rep, prop, core.Fn(TU, 'add_op_code'), graph.AddOpCode(), select=sel)
@@ -57,7 +102,8 @@ def bounded_insert(rep, max_ops=2):
     return fails, first
 
 CANARIES = [
-    ('insert_dequant: max(producer + 1, first) -> max(producer, first)', DI, 'insert_dequant', 'dequant', 'max(transformation_input.producer + 1, first_consumer_id)', 'max(transformation_input.producer, first_consumer_id)'),
+    ('insert_dequant: first consumer = min -> max over the listed consumers', DI, 'insert_dequant', 'dequant', 'first_consumer_id = min(first_consumer_id, consumer_id)', 'first_consumer_id = max(first_consumer_id, consumer_id)'),
+    ('insert_dequant: op placed at the producer position (producer + 1 -> producer)', DI, 'insert_dequant', 'dequant', 'max(transformation_input.producer + 1, first_consumer_id)', 'min(transformation_input.producer, first_consumer_id)'),
     ('insert_dequant: rewire test dropped (every operand of a listed consumer rewired)', DI, 'insert_dequant', 'dequant', 'if op.inputs[input_idx] == transformation_input.tensor_id:', 'if True:'),
     ('insert_quant: graph-output update dropped', QI, 'insert_quant', 'quant', 'transformation_input.subgraph.outputs[output_idx] = new_tensor_id', 'pass'),
     ('insert_quant: inserted op reads the NEW tensor instead of T', QI, 'insert_quant', 'quant', 'quant_op.inputs = [transformation_input.tensor_id]', 'quant_op.inputs = [new_tensor_id]'),
